@@ -86,7 +86,7 @@ PROPS = {
     "C03": dict(
         props=["ZipVerif.Props.C03"],
         tie=[],
-        streams=["read", "spec"],
+        streams=["read", "spec", "eocdwin"],
         title="Well-formed archives from other producers are read faithfully",
         level_text="Lean 4 theorems over EVERY layout of an independent APPNOTE producer (Spec.Zip.build: any number of entries, any prefix, gaps, every data-descriptor form, local headers disagreeing with the central ones, each of the 2^3 ZIP64 extended-information subsets per entry forced or needed, forced or needed ZIP64 end records, trailing bytes without ZIP64 records, foreign extra records, any host system/attributes/timestamps/flags): ZipArchive::new returns exactly the central directory's entries in order with the recorded values, offset() = prefix length, the comment (reader_on_wf); by_index_raw returns exactly the stored bytes from the data start computed out of the LOCAL header's lengths (reader_entry_raw); by_index returns the decoder's output gated by the central CRC, i.e. the original bytes for stored entries (reader_entry_read/_decoded/_stored); an unsupported method fails that entry only; lookup by name returns the last duplicate, absent names and out-of-range indices are FileNotFound; attributes map to the documented Unix mode. The reader model is tied to the source by correspondence (read stream: builder/writer/lying/truncated/random archives through the seekable and streaming readers); the format spec is tied to reality by the spec stream (Spec.Zip.build vs an independent Rust builder byte for byte; Spec.Zip.viewOf vs what the real crate reports; CPython zipfile on a sample)",
         level_note="hypotheses kept explicit: Fits (every value fits its field; sizes below 2^63), Readable (central extra data are well-formed records without the ZIP64/AES identifiers, method is not 99 - AES is C16), NoFalseSig (names/comments/trailing bytes do not embed an end-record signature where the reader probes; decidable, with sufficient-condition lemmas and a concrete counterexample showing the reader does go wrong without it). Decoders are parameters (Ext.decode; stored = identity is a hypothesis of reader_entry_stored). The model is hand-written (no translation tie for I/O code): agreement with the crate rests on the read stream",
